@@ -2,15 +2,13 @@
 
 
 def run(ctx):
-    try:
-        from contracts import c10_map as M
-        from pyvc.source import Repo
+    from contracts import c10_map as M
+    from pyvc.source import Repo
 
-        M.verify_all(ctx, Repo(), "C10")
-    except ImportError:
-        pass
+    M.verify_all(ctx, Repo(), "C10")
     ctx.trust("M-MAXPLUS: optimal substructure of the (max,+) recursion (pen and paper)")
-    ctx.extra["explanation"] = ("Bounded stand-in: the real MAP computation is compared with a brute-force maximum over all feasible grid assignments on every forest over <= 4 clones "
+    ctx.extra["explanation"] = ("Deductive: the two (max,+) loops of map.py (_compute_log_D_n, compute_log_S) satisfy their max / arg-max specification for any grid size and number of "
+                                "samples (witness-based inductive invariants on the real loop bodies, frame obligations on the arrays), get_map_ccfs reports grid points. Bounded stand-in: the real MAP computation is compared with a brute-force maximum over all feasible grid assignments on every forest over <= 4 clones "
                                 "(both sibling orders, evaluated in one process), stars with 4 children / 5 top-level clones, an all-outlier tree: grid membership, feasibility, "
                                 "optimality, clonal prevalence = ccf - children >= 0.")
     from bounded import mapccf as M2
